@@ -42,12 +42,10 @@ var (
 // knownClasses: property/oracle/class of confirmed genuine defects of the
 // unchanged tree. Only consulted in lenient mode.
 var knownClasses = map[string]bool{
-	// pkg/scale/decode.go: ds.Read(buf) ignores the byte count, a short read of
-	// the underlying bytes.Buffer leaves the rest of buf zero (report, defect D1)
-	"C12/reencode/truncated-fixed-width-int-zero-filled": true, // decodeFixedWidthInt 16/32/64 bit
-	"C12/reencode/truncated-bytes-zero-filled":           true, // decodeBytes ([]byte, string)
-	"C12/reencode/truncated-compact-uint-zero-filled":    true, // decodeUint modes 2 and 3 (also every length prefix)
-	"C12/reencode/truncated-compact-bigint-zero-filled":  true, // decodeSmallInt mode 2, decodeBigInt big mode
+	// D1 (pkg/scale zero-filled truncated input: classes truncated-fixed-width-int-
+	// zero-filled, truncated-bytes-zero-filled, truncated-compact-uint-zero-filled,
+	// truncated-compact-bigint-zero-filled) was fixed in /repo by 1b63a0356 and is
+	// therefore NOT in this list any more: a regression stops the run in every mode.
 	// decodeBigInt has no range checks at all (defect D2)
 	"C12/reencode/noncanonical-compact-bigint-accepted": true,
 	// decodeBytes makes the declared length (up to 4 GiB) before reading (defect D3)
@@ -143,10 +141,10 @@ func hx(b []byte) string {
 
 // ---- panic capture ---------------------------------------------------------
 
-type harnessPanic struct {
-	val   any
-	stack string
-}
+// readLimitExceeded is raised by the counting reader of trie.go when a decoder
+// keeps calling Read far beyond what its input can justify (a loop that does not
+// stop at end of input); guard reports it with site "read-limit".
+type readLimitExceeded struct{ reads int }
 
 // guard runs fn and reports a panic raised inside gossamer code as (true, value,
 // site). The classification mirrors kernel.classifyPanic (first frame above the
@@ -156,6 +154,10 @@ func guard(fn func()) (panicked bool, val any, site string) {
 	defer func() {
 		r := recover()
 		if r == nil {
+			return
+		}
+		if rl, ok := r.(readLimitExceeded); ok {
+			panicked, val, site = true, rl, "read-limit"
 			return
 		}
 		st := string(debug.Stack())
